@@ -10,7 +10,7 @@ for n in ${BENIGN_LIST:-01 02 03 04 05 06 07 08 09 10 11 12 13 14 15 16 17 18 19
   git -C /repo apply /verif/benign/$n/patch.diff || { echo "$n: PATCH FAILED"; continue; }
   props="${T[$n]}"; [ "$1" = all ] && props="C01 C02 C03 C04 C05 C06 C07 C08 C09 C10 C11 C12 C13 C14 C15 C16 C17 C18 C19 C20"
   for P in $props; do
-    r=$(./check $P 2>&1 | grep -v Warning | head -3 | tr '\n' ' ' | cut -c1-400)
+    r=$(./check $P 2>/dev/null | head -3 | tr '\n' ' ' | cut -c1-400)
     case "$r" in OK*) echo "benign $n $P ok";; *) echo "benign $n $P ALARM: $r";; esac
   done
   git -C /repo checkout -- .
